@@ -922,12 +922,12 @@ func TestC19(t *testing.T) {
 	iplib.Quiet()
 	r := lib.Start("C19")
 	defer lib.End(t, r)
-	r.Rule = "one case = one byte string handed to asp.Parser.ParseData. Streams: every tracked BUILD-language file of the repository unchanged (trivial), exhaustive adjacent-literal sequences, grammar-generated programs with 0-9 token/byte mutations, mutated windows of seed files (1-20 operators), and a nesting-depth/length ladder per recursive construct (brackets, calls, lambdas, inline ifs, property chains, ... and flat binary-operator chains +, and, or, ==, not in, is not, mixed, of up to 3 million terms). Distinct by SHA-256 of the bytes; non-trivial = non-empty and not byte-identical to a seed file"
+	r.Rule = "one case = one byte string handed to asp.Parser.ParseData. Streams: every tracked BUILD-language file of the repository unchanged (trivial), exhaustive adjacent-literal sequences, grammar-generated programs with 0-9 token/byte mutations, mutated windows of seed files (1-20 operators), and a nesting-depth/length ladder per recursive construct (brackets, calls, lambdas, inline ifs, property chains, ... and flat binary-operator chains +, and, or, ==, not in, is not, mixed, of a million operators). Distinct by SHA-256 of the bytes; non-trivial = non-empty and not byte-identical to a seed file"
 	r.Assumes = []string{
 		"ParseData is the parser entry point (ParseFile/ParseReader go through the same parseFileInput)",
 		"the error's dynamic type, its exported Stack field and (through unsafe) its wrapped error are read by reflection because asp's error type is unexported",
 		"a hang is declared only after one <=32 KiB input consumed 60 CPU-seconds in a process of its own; wall-clock limits only ever yield 'inconclusive'",
-		"stack overflows are provoked at Go's default stack limit (the same the plz binary runs with), except on the 3-million-term rungs of the flat operator chains (a + a + ..., and/or, ==, mixed): those run under a 128 MiB limit, >6x what the parser's documented bound (10000 levels x 'a couple of kilobytes') needs, because at ~200 bytes of stack per term the default limit would need >5 million terms and GiBs of memory per case; the thorough tier also runs 10-million-term chains at the default limit",
+		"stack overflows are provoked at Go's default stack limit (the same the plz binary runs with), except on the million-operator rungs of the flat operator chains (a + a + ..., and/or, ==, mixed): those run under a 64 MiB limit, >3x what the parser's documented bound (10000 levels x 'a couple of kilobytes') needs, because at ~200 bytes of stack per term the default limit would need >5 million terms and GiBs of memory per case; the thorough tier also runs 10-million-term chains at the default limit",
 	}
 	repo := os.Getenv("VERIF_REPO_DIR")
 	if repo == "" {
